@@ -283,32 +283,63 @@ fn lit_reductions(l: &Lit) -> Vec<Lit> {
     }
 }
 
-/// `m` can be reached from `l` by the reductions (pure deletions / the char ladder)
+/// `m` can be reached from `l` by the reductions: deleting chars and replacing a char by a lower-ranked one (rank =
+/// index in the alphabet, chars outside it rank above it by code point) - i.e. `m` matches a subsequence of `l` whose
+/// chars are equal or higher-ranked
 fn reduces_to(l: &Lit, m: &Lit) -> bool {
-    fn subseq<T: PartialEq>(a: &[T], b: &[T]) -> bool {
+    fn rank(c: char) -> u32 {
+        match SIGMA_ESC.iter().position(|x| *x == c) {
+            Some(i) => i as u32,
+            None => 1000 + c as u32,
+        }
+    }
+    fn subseq_text(m: &str, l: &str) -> bool {
+        let mut it = m.chars().peekable();
+        for x in l.chars() {
+            match it.peek() {
+                Some(w) if *w == x || rank(x) > rank(*w) => {
+                    it.next();
+                }
+                Some(_) => {}
+                None => break,
+            }
+        }
+        it.peek().is_none()
+    }
+    fn subseq_bytes(m: &[u8], l: &[u8]) -> bool {
         let mut i = 0;
-        for x in b {
-            if i < a.len() && a[i] == *x {
+        for x in l {
+            // bytes reduce to 0x61, 0x00, 0x27 when larger
+            if i < m.len() && (m[i] == *x || (matches!(m[i], 0x61 | 0x00 | 0x27) && (m[i] == 0x61 || *x > m[i]))) {
                 i += 1;
             }
         }
-        i == a.len()
+        i == m.len()
     }
     match (l, m) {
-        (Lit::Text(a), Lit::Text(b)) => subseq(&b.chars().collect::<Vec<_>>(), &a.chars().collect::<Vec<_>>()),
-        (Lit::Bytes(a), Lit::Bytes(b)) => subseq(b, a),
+        (Lit::Text(a), Lit::Text(b)) => subseq_text(b, a),
+        (Lit::Bytes(a), Lit::Bytes(b)) => subseq_bytes(b, a),
         (Lit::Char(a), Lit::Char(b)) => b <= a && !a.is_ascii(),
         _ => false,
     }
 }
 
-static KNOWN_MIN: std::sync::Mutex<Vec<(usize, Dialect, String, Lit)>> = std::sync::Mutex::new(Vec::new());
+type MinKey = (usize, Dialect, String);
+static KNOWN_MIN: std::sync::RwLock<Option<std::collections::HashMap<MinKey, Vec<Lit>>>> = std::sync::RwLock::new(None);
+/// beyond this many distinct minimal cases for one (position, dialect, signature) further failing cases are only counted
+const MAX_MIN_PER_KEY: usize = 48;
 
 fn record(rep: &Report, pi: usize, p: &Pos, d: Dialect, lit: &Lit, sig: &str, er: &Counter) {
     rep.raw_failures.inc();
     // a failing case that reduces to an already recorded minimal case with the same signature adds nothing
-    if KNOWN_MIN.lock().unwrap().iter().any(|(i, dd, s, m)| *i == pi && *dd == d && s == sig && reduces_to(lit, m)) {
-        return;
+    let key: MinKey = (pi, d, sig.to_string());
+    {
+        let g = KNOWN_MIN.read().unwrap();
+        if let Some(v) = g.as_ref().and_then(|m| m.get(&key)) {
+            if v.len() >= MAX_MIN_PER_KEY || v.iter().any(|m| reduces_to(lit, m)) {
+                return;
+            }
+        }
     }
     let min = minimize(lit.clone(), sig, lit_reductions, |l| {
         if l.has_nul() && d != Dialect::Mysql {
@@ -317,7 +348,14 @@ fn record(rep: &Report, pi: usize, p: &Pos, d: Dialect, lit: &Lit, sig: &str, er
         check_one(pi, p, d, l, er).err().map(|e| e.0)
     });
     let detail = check_one(pi, p, d, &min, er).err().map(|e| e.1).unwrap_or_default();
-    KNOWN_MIN.lock().unwrap().push((pi, d, sig.to_string(), min.clone()));
+    {
+        let mut g = KNOWN_MIN.write().unwrap();
+        let v = g.get_or_insert_with(Default::default).entry(key).or_default();
+        if v.contains(&min) {
+            return;
+        }
+        v.push(min.clone());
+    }
     rep.violation(Violation {
         key: format!("{}|{}|{}|{}", p.name, d.name(), sig, min.show()),
         what: format!("{} on {}: value {}: {}", p.name, d.name(), min.show(), detail),
@@ -390,6 +428,18 @@ pub fn run(rep: &Arc<Report>) {
         visit(&Lit::Bytes(b.clone()), if b.len() == 2 { 1 } else { 0 });
         if b.len() == 1 {
             visit(&Lit::Bytes(vec![0x27, b[0], 0x5c, 0x00, b[0]]), 0);
+            // longer strings of distinct bytes (writers that work in groups of 4 / 8 / 16 bytes): the byte at every offset of
+            // frames of length 7, 8, 9, 15, 16, 17, 33
+            if b[0] < 34 {
+                for len in [7usize, 8, 9, 15, 16, 17, 33] {
+                    let k = b[0] as usize;
+                    if k < len {
+                        let mut f: Vec<u8> = (0..len).map(|i| 0xA0u8.wrapping_add(i as u8)).collect();
+                        f[k] = 0x0F;
+                        visit(&Lit::Bytes(f), 0);
+                    }
+                }
+            }
         }
     });
     rep.set("alphabet", json!(alphabet.iter().map(|c| show(&c.to_string())).collect::<Vec<_>>()));
